@@ -77,6 +77,15 @@ pub struct PipeCase {
     pub s2c: PipeParams,
     pub yields: Vec<u8>,
     pub draw_seed: u64,
+    /// "when it ends it has seen all of it": once the client's writers are done the client session
+    /// is closed; the server-side readers must still obtain every byte and then end-of-stream.
+    /// (Only the up direction carries data in this mode.)
+    #[serde(default)]
+    pub end_by_close: bool,
+    /// end_by_close mode: the readers only start once the end has been processed by their session
+    /// (everything they will ever get is queued by then)
+    #[serde(default)]
+    pub late_readers: bool,
 }
 
 pub struct PipeFam;
@@ -161,6 +170,9 @@ async fn write_dir(sess: Arc<Session>, st: Arc<Stream>, plan: DirPlan, key: u32,
 }
 
 thread_local! {
+    /// set while a case runs in end-by-close mode: readers expect end-of-stream behind the data
+    static EXPECT_END: std::cell::Cell<bool> = const { std::cell::Cell::new(false) };
+    static LATE_READERS: std::cell::Cell<bool> = const { std::cell::Cell::new(false) };
     /// the first content failure seen by any reader of the current case (more telling than the
     /// stall that usually follows it)
     static FIRST_FAIL: std::cell::RefCell<Option<Fail>> = const { std::cell::RefCell::new(None) };
@@ -200,6 +212,9 @@ async fn read_dir_inner(st: Arc<Stream>, plan: DirPlan, key: u32, dir: u8, prog:
         } else {
             match g.read(&mut buf).await {
                 Ok(0) => {
+                    if EXPECT_END.with(|e| e.get()) {
+                        return Err(Fail::new("C01.complete", "C01.complete:ended-early", format!("{who} plan #{key}: the stream ended after {got} of the {total} bytes written before the writer's session was closed")));
+                    }
                     return Err(Fail::new("C01.noend", "C01.noend:eof", format!("{who} plan #{key}: end-of-stream (0-byte read) after {got} of {total} bytes while the stream is open")));
                 }
                 Ok(n) => n,
@@ -223,9 +238,17 @@ async fn read_dir_inner(st: Arc<Stream>, plan: DirPlan, key: u32, dir: u8, prog:
         p.got = got;
     }
     prog.lock().unwrap().state = "complete";
-    // nothing may follow: neither data nor end-of-stream while the stream is open
     let mut buf = [0u8; 16];
     let mut g = reader.lock().await;
+    if EXPECT_END.with(|e| e.get()) && dir == 0 {
+        // the writer's session is closed after its last write: end-of-stream must follow the data
+        return match within(WATCHDOG, g.read(&mut buf)).await {
+            Some(Ok(0)) | Some(Err(_)) => Ok(()),
+            Some(Ok(n)) => Err(Fail::new("C01.complete", "C01.complete:extra", format!("{who} plan #{key}: {n} extra bytes after the {total} written"))),
+            None => Err(Fail::new("C01.complete", "C01.complete:no-end", format!("{who} plan #{key}: all {total} bytes arrived but the stream never ended after the writer's session was closed"))),
+        };
+    }
+    // nothing may follow: neither data nor end-of-stream while the stream is open
     match within(Duration::from_secs(5), g.read(&mut buf)).await {
         None => Ok(()),
         Some(Ok(0)) => Err(Fail::new("C01.noend", "C01.noend:eof-after", format!("{who} plan #{key}: end-of-stream observed although nobody closed the stream"))),
@@ -240,7 +263,15 @@ pub fn run_pipe_case(case: &PipeCase) -> CaseResult {
     let c2s = bound_work(&case.c2s, total);
     let s2c = bound_work(&case.s2c, total);
     let text = case.scheme.text();
-    let plans = case.streams.clone();
+    let mut plans = case.streams.clone();
+    let end_by_close = case.end_by_close;
+    if end_by_close {
+        for p in plans.iter_mut() {
+            p.down.chunks.clear();
+        }
+    }
+    EXPECT_END.with(|e| e.set(end_by_close));
+    LATE_READERS.with(|e| e.set(end_by_close && case.late_readers));
     let yields = case.yields.clone();
     let seed = case.draw_seed;
     let n_streams = plans.len();
@@ -287,6 +318,15 @@ pub fn run_pipe_case(case: &PipeCase) -> CaseResult {
                             tokio::time::sleep(Duration::from_millis(1)).await;
                         };
                         let plan = plans[key].clone();
+                        if LATE_READERS.with(|e| e.get()) {
+                            // a reader that lags behind its session's receive task
+                            let _ = within(WATCHDOG, async {
+                                while !server.is_closed() {
+                                    tokio::time::sleep(Duration::from_millis(100)).await;
+                                }
+                            })
+                            .await;
+                        }
                         let w = tokio::spawn(write_dir(server.clone(), st.clone(), plan.down.clone(), key as u32, 1));
                         let r = read_dir(st.clone(), plan.up.clone(), key as u32, 0, progress[key].clone()).await;
                         let w = w.await.unwrap_or_else(|e| Err(Fail::new("C01.api", "C01.api:panic", format!("server writer task: {e}"))));
@@ -303,10 +343,38 @@ pub fn run_pipe_case(case: &PipeCase) -> CaseResult {
                 res
             }));
         }
+        let writers_done = Arc::new(std::sync::atomic::AtomicUsize::new(0));
+        if end_by_close {
+            // the owner closes the client session once every writer has returned and the wire has been
+            // quiet for a while (forwarded send_data chunks are on it by then)
+            let client = client.clone();
+            let wd = writers_done.clone();
+            let n = n_streams;
+            let c2s_h = l.c2s.clone();
+            tokio::spawn(async move {
+                loop {
+                    tokio::time::sleep(Duration::from_millis(50)).await;
+                    if wd.load(std::sync::atomic::Ordering::SeqCst) == n {
+                        break;
+                    }
+                }
+                let mut last = c2s_h.accepted();
+                loop {
+                    tokio::time::sleep(Duration::from_secs(2)).await;
+                    let now = c2s_h.accepted();
+                    if now == last {
+                        break;
+                    }
+                    last = now;
+                }
+                let _ = client.close().await;
+            });
+        }
         // client side: one task per plan
         for (key, plan) in plans.iter().cloned().enumerate() {
             let client = client.clone();
             let idmap = idmap.clone();
+            let writers_done = writers_done.clone();
             let prog = progress[key].1.clone();
             handles.push(tokio::spawn(async move {
                 let (st, _synack) = match within(WATCHDOG, client.open_stream()).await {
@@ -323,6 +391,15 @@ pub fn run_pipe_case(case: &PipeCase) -> CaseResult {
                         .await;
                 }
                 let w = tokio::spawn(write_dir(client.clone(), st.clone(), plan.up.clone(), key as u32, 0));
+                if end_by_close {
+                    // no data comes down in this mode; the writer's result is all there is
+                    let _ = prog;
+                    let w = w.await.unwrap_or_else(|e| Err(Fail::new("C01.api", "C01.api:panic", format!("client writer task: {e}"))));
+                    // forwarded chunks (send_data) are written by the session's own task: wait until the
+                    // session has nothing left to put on the wire before the owner closes it
+                    writers_done.fetch_add(1, std::sync::atomic::Ordering::SeqCst);
+                    return w;
+                }
                 let r = read_dir(st.clone(), plan.down.clone(), key as u32, 1, prog).await;
                 let w = w.await.unwrap_or_else(|e| Err(Fail::new("C01.api", "C01.api:panic", format!("client writer task: {e}"))));
                 r.and(w)
@@ -360,7 +437,7 @@ pub fn run_pipe_case(case: &PipeCase) -> CaseResult {
                 ));
             }
         }
-        if client.is_closed() || server.is_closed() {
+        if !end_by_close && (client.is_closed() || server.is_closed()) {
             return Err(Fail::new("C01.api", "C01.api:session-closed", "a session closed itself during a fault-free transfer"));
         }
         let log = sched.lock().unwrap().clone();
@@ -384,6 +461,8 @@ pub fn run_pipe_case(case: &PipeCase) -> CaseResult {
     out.class_if(case.streams.iter().any(|s| s.up.chunks.contains(&0) || s.down.chunks.contains(&0)), "empty-chunk");
     out.class_if(frames.iter().any(|f| f.cmd == rc::WASTE), "padding-on-wire");
     out.class_if(used != raw.len(), "wire-tail");
+    out.class_if(case.end_by_close, "ended-by-session-close");
+    out.class_if(case.end_by_close && case.late_readers, "late-readers");
     out.nt((big || (tiny && total > 0) || n_streams >= 2 || small_buf) && total > 0);
     Ok(out)
 }
@@ -407,8 +486,10 @@ impl Family for PipeFam {
             pipe_params(),
             prop_oneof![2 => Just(Vec::new()), 1 => proptest::collection::vec(0u8..3, 0..40)],
             any::<u64>(),
+            proptest::bool::weighted(0.25),
+            any::<bool>(),
         )
-            .prop_map(|(scheme, streams, c2s, s2c, yields, draw_seed)| PipeCase { scheme, streams, c2s, s2c, yields, draw_seed })
+            .prop_map(|(scheme, streams, c2s, s2c, yields, draw_seed, end_by_close, late_readers)| PipeCase { scheme, streams, c2s, s2c, yields, draw_seed, end_by_close, late_readers })
             .boxed()
     }
     fn fixed_cases(&self, _tier: Tier) -> Vec<PipeCase> {
@@ -423,6 +504,8 @@ impl Family for PipeFam {
                     s2c: PipeParams::default(),
                     yields: vec![],
                     draw_seed: n as u64,
+                    end_by_close: false,
+                    late_readers: false,
                 });
             }
         }
